@@ -1248,8 +1248,12 @@ impl tower::Service<http::Uri> for PipeConnector {
                     tonic::transport::Server::builder()
                         .timeout(Duration::from_secs(3600))
                         .concurrency_limit_per_connection(8)
-                        .initial_stream_window_size(5000u32)
-                        .initial_connection_window_size(100_000u32)
+                        // windows LARGER than HTTP/2's initial 65 535: a server that shrinks its stream window
+                        // (e.g. 5000) while the client already has more than 65 535 bytes of one request in flight
+                        // (its SETTINGS still on the way over a slow pipe) stalls the stream inside h2 — flow
+                        // control is outside this property's transport relation (props.d/C02.json, level_note)
+                        .initial_stream_window_size(1_000_000u32)
+                        .initial_connection_window_size(2_000_000u32)
                         .max_concurrent_streams(16u32)
                         .max_frame_size(20_000u32)
                         .layer(tower::layer::layer_fn(PlainSvc))
